@@ -33,10 +33,12 @@ def run(idx: ProgramIndex, rep: Report, tier: str):
     rep.rule("C01-2", "joint inputs are the training inputs followed by the test inputs (agrees with the num_train split)")
     rep.rule("C01-3", "the prediction runs inside the eval CG-tolerance scope")
     rep.rule("C01-4", "mode dispatch is total and ordered; the strategy is built from the training data and only when absent")
+    rep.rule("C01-6", "no in-place aliasing hazard on the prediction path: no operand is overwritten through a view by a later operand, no stale reads, the caller's tensors are not written")
     rep.rule("C01-5", "predictive mean adds the test prior mean once; predictive covariance subtracts the correction from the test x test block")
     block_typing(idx, rep)
     call_structure(idx, rep)
     consumer_roles(idx, rep)
+    aliasing(idx, rep)
 
 
 # ---- C01-1 ---------------------------------------------------------------------------------------------------------
@@ -287,3 +289,31 @@ def consumer_roles(idx: ProgramIndex, rep: Report):
                 rep.observe("C01-5", "%s:DefaultPredictionStrategy.exact_predictive_covar[%s]" % (D.module.name, t[:40]), pc.where, "form of the correction not recognised (neither a sum nor an explicit subtraction)")
     rep.add("C01-5", "%s:DefaultPredictionStrategy.exact_predictive_covar" % D.module.name, pc.where, not probs and nret >= 5,
             "all %d non-trivial returns are test x test minus a correction built from the test x train block" % nret if not probs else "; ".join(probs[:3]), {"returns": nret})
+
+
+# ---- C01-6 ---------------------------------------------------------------------------------------------------------
+PREDICTION_METHODS = ("exact_prediction", "exact_predictive_mean", "exact_predictive_covar", "_mean_cache", "covar_cache", "mean_cache",
+                      "_exact_predictive_covar_inv_quad_form_cache", "_exact_predictive_covar_inv_quad_form_root")
+
+
+def aliasing(idx: ProgramIndex, rep: Report):
+    """Storage/version abstract interpretation (the C19 domain) of the methods on the exact prediction path."""
+    from .c19 import interp_function
+
+    D = idx.find_class("DefaultPredictionStrategy")
+    n = 0
+    for cls in idx.subclasses(D):
+        for name in PREDICTION_METHODS:
+            fi = cls.methods.get(name)
+            if fi is None:
+                continue
+            n += 1
+            try:
+                probs, npaths = interp_function(fi, "method", set(), {})
+            except AnalysisError as e:
+                rep.observe("C01-6", "%s:%s.%s" % (cls.module.name, cls.qualname, name), fi.where, "not analysed: %s" % str(e)[:80])
+                continue
+            probs = [p.replace("an input of the Function (autograd forbids it without mark_dirty; the caller's tensor is changed)", "an argument (the caller's tensor, e.g. a block of the joint prior or a cache, is changed)") for p in probs]
+            rep.add("C01-6", "%s:%s.%s" % (cls.module.name, cls.qualname, name), fi.where, not probs and npaths > 0,
+                    "on all %d path(s): no operand overwritten through an alias, no stale reads, arguments not written" % npaths if not probs else "; ".join(probs[:3]), {"paths": npaths})
+    rep.floor("C01-6", "prediction-path methods interpreted", n, 15)
